@@ -342,6 +342,14 @@ impl LazyFreeStats {
 /// still in use by active tokens.
 #[derive(Debug)]
 pub struct VersionManager {
+    /// Versioning state, shared with every token this manager has issued so that a
+    /// token released after its manager has been dropped still finds live memory.
+    state: Arc<VersionState>,
+}
+
+/// State shared between a [`VersionManager`] and the tokens it has issued.
+#[derive(Debug)]
+struct VersionState {
     /// Current concurrency level.
     concurrency_level: ConcurrencyLevel,
     /// Master version sequence counter.
@@ -362,44 +370,46 @@ impl VersionManager {
     /// Creates a new version manager with the specified concurrency level.
     pub fn new(concurrency_level: ConcurrencyLevel) -> Self {
         Self {
-            concurrency_level,
-            current_version: AtomicU64::new(1), // Start at 1 to avoid zero-version issues
-            min_version: AtomicU64::new(1),
-            active_readers: AtomicU64::new(0),
-            active_writers: AtomicU64::new(0),
-            token_chain_mutex: Mutex::new(()),
-            stats: Mutex::new(VersionManagerStats::default()),
+            state: Arc::new(VersionState {
+                concurrency_level,
+                current_version: AtomicU64::new(1), // Start at 1 to avoid zero-version issues
+                min_version: AtomicU64::new(1),
+                active_readers: AtomicU64::new(0),
+                active_writers: AtomicU64::new(0),
+                token_chain_mutex: Mutex::new(()),
+                stats: Mutex::new(VersionManagerStats::default()),
+            }),
         }
     }
 
     /// Returns the current concurrency level.
     #[inline]
     pub fn concurrency_level(&self) -> ConcurrencyLevel {
-        self.concurrency_level
+        self.state.concurrency_level
     }
 
     /// Returns the current version sequence number.
     #[inline]
     pub fn current_version(&self) -> u64 {
-        self.current_version.load(Ordering::Acquire)
+        self.state.current_version.load(Ordering::Acquire)
     }
 
     /// Returns the minimum version still in use.
     #[inline]
     pub fn min_version(&self) -> u64 {
-        self.min_version.load(Ordering::Acquire)
+        self.state.min_version.load(Ordering::Acquire)
     }
 
     /// Returns the number of active reader tokens.
     #[inline]
     pub fn active_readers(&self) -> u64 {
-        self.active_readers.load(Ordering::Relaxed)
+        self.state.active_readers.load(Ordering::Relaxed)
     }
 
     /// Returns the number of active writer tokens.
     #[inline]
     pub fn active_writers(&self) -> u64 {
-        self.active_writers.load(Ordering::Relaxed)
+        self.state.active_writers.load(Ordering::Relaxed)
     }
 
     /// Acquires a new reader token.
@@ -408,7 +418,7 @@ impl VersionManager {
     /// sequence number and updating the active token count.
     pub fn acquire_reader_token(&self) -> Result<ReaderToken> {
         // Check if readers are allowed at this concurrency level
-        if self.concurrency_level == ConcurrencyLevel::NoWriteReadOnly {
+        if self.state.concurrency_level == ConcurrencyLevel::NoWriteReadOnly {
             // Read-only level allows unlimited readers without version tracking
             return Ok(ReaderToken::new_readonly());
         }
@@ -416,28 +426,28 @@ impl VersionManager {
         let start_time = Instant::now();
 
         // For levels that require synchronization, acquire version under lock
-        let (version, min_version) = if self.concurrency_level.requires_synchronization() {
-            let _lock = self.token_chain_mutex.lock().map_err(|_| {
+        let (version, min_version) = if self.state.concurrency_level.requires_synchronization() {
+            let _lock = self.state.token_chain_mutex.lock().map_err(|_| {
                 ZiporaError::system_error("Failed to acquire token chain mutex for reader")
             })?;
 
-            let current_min = self.min_version.load(Ordering::Acquire);
-            let version = self.current_version.fetch_add(1, Ordering::AcqRel) + 1;
+            let current_min = self.state.min_version.load(Ordering::Acquire);
+            let version = self.state.current_version.fetch_add(1, Ordering::AcqRel) + 1;
 
             // Count the token while the lock is still held: a token that has a
             // version but is not yet counted would let a concurrent release move
             // min_version past it.
-            self.active_readers.fetch_add(1, Ordering::Relaxed);
+            self.state.active_readers.fetch_add(1, Ordering::Relaxed);
 
             (version, current_min)
         } else {
             // Single-threaded modes don't need version tracking
-            self.active_readers.fetch_add(1, Ordering::Relaxed);
+            self.state.active_readers.fetch_add(1, Ordering::Relaxed);
             (1, 1)
         };
 
         // Update statistics
-        if let Ok(mut stats) = self.stats.lock() {
+        if let Ok(mut stats) = self.state.stats.lock() {
             stats.reader_tokens_acquired += 1;
             stats.total_reader_acquisition_time += start_time.elapsed();
         }
@@ -446,9 +456,9 @@ impl VersionManager {
             version,
             min_version,
             thread::current().id(),
-            self.concurrency_level,
+            self.state.concurrency_level,
             Arc::new(TokenReleaseCallback {
-                version_manager: self as *const Self,
+                state: Arc::clone(&self.state),
                 token_type: TokenType::Reader,
             }),
         ))
@@ -460,7 +470,7 @@ impl VersionManager {
     /// checking based on the concurrency level.
     pub fn acquire_writer_token(&self) -> Result<WriterToken> {
         // Check if writers are allowed at this concurrency level
-        if self.concurrency_level == ConcurrencyLevel::NoWriteReadOnly {
+        if self.state.concurrency_level == ConcurrencyLevel::NoWriteReadOnly {
             return Err(ZiporaError::invalid_operation(
                 "Writers not allowed in NoWriteReadOnly mode",
             ));
@@ -470,9 +480,10 @@ impl VersionManager {
 
         // For OneWriteMultiRead, claim the single writer slot atomically: a separate
         // check followed by a later increment lets two threads both pass the check.
-        let slot_claimed = self.concurrency_level == ConcurrencyLevel::OneWriteMultiRead;
+        let slot_claimed = self.state.concurrency_level == ConcurrencyLevel::OneWriteMultiRead;
         if slot_claimed
             && self
+                .state
                 .active_writers
                 .compare_exchange(0, 1, Ordering::AcqRel, Ordering::Acquire)
                 .is_err()
@@ -483,12 +494,12 @@ impl VersionManager {
         }
 
         // Acquire version under lock for synchronized levels
-        let (version, min_version) = if self.concurrency_level.requires_synchronization() {
-            let _lock = match self.token_chain_mutex.lock() {
+        let (version, min_version) = if self.state.concurrency_level.requires_synchronization() {
+            let _lock = match self.state.token_chain_mutex.lock() {
                 Ok(lock) => lock,
                 Err(_) => {
                     if slot_claimed {
-                        self.active_writers.fetch_sub(1, Ordering::Release);
+                        self.state.active_writers.fetch_sub(1, Ordering::Release);
                     }
                     return Err(ZiporaError::system_error(
                         "Failed to acquire token chain mutex for writer",
@@ -496,23 +507,23 @@ impl VersionManager {
                 }
             };
 
-            let current_min = self.min_version.load(Ordering::Acquire);
-            let version = self.current_version.fetch_add(1, Ordering::AcqRel) + 1;
+            let current_min = self.state.min_version.load(Ordering::Acquire);
+            let version = self.state.current_version.fetch_add(1, Ordering::AcqRel) + 1;
 
             // Count the token while the lock is still held (see acquire_reader_token);
             // a claimed OneWriteMultiRead slot is already counted.
             if !slot_claimed {
-                self.active_writers.fetch_add(1, Ordering::Relaxed);
+                self.state.active_writers.fetch_add(1, Ordering::Relaxed);
             }
 
             (version, current_min)
         } else {
-            self.active_writers.fetch_add(1, Ordering::Relaxed);
+            self.state.active_writers.fetch_add(1, Ordering::Relaxed);
             (1, 1)
         };
 
         // Update statistics
-        if let Ok(mut stats) = self.stats.lock() {
+        if let Ok(mut stats) = self.state.stats.lock() {
             stats.writer_tokens_acquired += 1;
             stats.total_writer_acquisition_time += start_time.elapsed();
         }
@@ -521,14 +532,16 @@ impl VersionManager {
             version,
             min_version,
             thread::current().id(),
-            self.concurrency_level,
+            self.state.concurrency_level,
             Arc::new(TokenReleaseCallback {
-                version_manager: self as *const Self,
+                state: Arc::clone(&self.state),
                 token_type: TokenType::Writer,
             }),
         ))
     }
+}
 
+impl VersionState {
     /// Internal method to release a reader token.
     fn release_reader_token(&self, token_version: u64) {
         self.active_readers.fetch_sub(1, Ordering::Relaxed);
@@ -578,10 +591,12 @@ impl VersionManager {
             self.min_version.store(current, Ordering::Release);
         }
     }
+}
 
+impl VersionManager {
     /// Returns version manager statistics.
     pub fn stats(&self) -> Result<VersionManagerStats> {
-        self.stats
+        self.state.stats
             .lock()
             .map(|stats| stats.clone())
             .map_err(|_| ZiporaError::system_error("Failed to acquire stats mutex"))
@@ -589,7 +604,7 @@ impl VersionManager {
 
     /// Clears all statistics.
     pub fn clear_stats(&self) -> Result<()> {
-        self.stats
+        self.state.stats
             .lock()
             .map(|mut stats| *stats = VersionManagerStats::default())
             .map_err(|_| ZiporaError::system_error("Failed to acquire stats mutex"))
@@ -658,15 +673,19 @@ enum TokenType {
 }
 
 /// Callback structure for token release.
+///
+/// Holds a strong reference to the issuing manager's state, so releasing a token is
+/// valid for as long as the token exists, whether or not the manager still does
+/// (tokens can be parked in the per-thread token cache and outlive their manager).
 struct TokenReleaseCallback {
-    version_manager: *const VersionManager,
+    state: Arc<VersionState>,
     token_type: TokenType,
 }
 
 impl std::fmt::Debug for TokenReleaseCallback {
     fn fmt(&self, f: &mut std::fmt::Formatter<'_>) -> std::fmt::Result {
         f.debug_struct("TokenReleaseCallback")
-            .field("version_manager", &(self.version_manager as usize))
+            .field("version_manager", &(Arc::as_ptr(&self.state) as usize))
             .field("token_type", &self.token_type)
             .finish()
     }
@@ -674,31 +693,12 @@ impl std::fmt::Debug for TokenReleaseCallback {
 
 impl TokenReleaseCallback {
     fn release(&self, token_version: u64) {
-        unsafe {
-            let manager = &*self.version_manager;
-            match self.token_type {
-                TokenType::Reader => manager.release_reader_token(token_version),
-                TokenType::Writer => manager.release_writer_token(token_version),
-            }
+        match self.token_type {
+            TokenType::Reader => self.state.release_reader_token(token_version),
+            TokenType::Writer => self.state.release_writer_token(token_version),
         }
     }
 }
-
-// SAFETY: TokenReleaseCallback is Send because:
-// 1. `version_manager: *const VersionManager` - Raw pointer to a VersionManager.
-//    The VersionManager is expected to outlive all callbacks (managed by Arc).
-// 2. `token_type: TokenType` - Simple enum, trivially Send.
-//
-// INVARIANT: The VersionManager must remain valid for the lifetime of all callbacks.
-// This is enforced by the Arc<VersionManager> ownership in the token creation path.
-unsafe impl Send for TokenReleaseCallback {}
-
-// SAFETY: TokenReleaseCallback is Sync because:
-// 1. Both fields are read-only after construction.
-// 2. `release()` calls thread-safe methods on VersionManager (which uses atomics).
-// 3. The VersionManager's release_reader_token/release_writer_token are atomic.
-// Sharing &TokenReleaseCallback for concurrent reads is safe.
-unsafe impl Sync for TokenReleaseCallback {}
 
 /// Reader token for safe concurrent read access.
 ///
